@@ -112,6 +112,80 @@ def _tiny_step_occurred(cfg, clip, save_at, tol, rtol, dt0):
     return bool(np.min(hs) < 1e-3 * np.median(hs)), int(hs.size)
 
 
+def _diagnose(cfg, prob, clip, save_at, tol, rtol, dt0, k_allowed, strategy):
+    """Mechanism tags for a tolerance exceedance of one save_at solve, decided by observation and *intervention*:
+    the solve is repeated with a tap on every attempted (t, dt); then
+
+    * clip_forced_short_step: under clipping an attempt that ends exactly at a checkpoint was at least 10x shorter than
+      the attempt before it AND the same solve without clipping meets the tolerance (finding D15: the update after a
+      forced short prediction amplifies the linearisation residual; amplification grows with the order);
+    * small_gap_after_node: (fixed-point smoother) a checkpoint lies less than 2% of its step behind the previous
+      interpolation node (the step start or the previous checkpoint) AND the same solve without those checkpoints meets
+      the tolerance at all remaining ones (finding D14: the interpolation over a tiny sub-interval is ill-conditioned;
+      measured loss at relative gap 1e-2: 6e-13 for 5 coefficients, 9e-5 for 8).
+    """
+    import jax
+    import jax.numpy as jnp
+    from probdiffeq import ivpsolve
+
+    out = {"clip_forced_short_step": False, "small_gap_after_node": False}
+    wit = {}
+    sink = []
+
+    def solve(pts, clip_, solver):
+        fn = jax.jit(ivpsolve.solve_adaptive_save_at(solver=solver, error=cfg["error"], clip_dt=clip_, while_loop=configs.bounded_while(20000)))
+        sol = fn(cfg["prior"], jnp.asarray(pts), atol=tol, rtol=rtol, dt0=dt0)
+        jax.block_until_ready(sol.t)
+        jax.effects_barrier()
+        return sol
+
+    def ratio_of(sol, pts):
+        if not configs.adaptive_reached_end(sol, pts[-1]):
+            return float("inf")
+        truth = configs.reference_solution(prob, np.asarray(pts))
+        return _judge(pts, np.asarray(sol.u.mean[0], float).reshape(len(pts), -1)[:, : prob["d"]], truth, tol, rtol)
+
+    solve(save_at, clip, _DtTap(cfg["solver"], sink))
+    att = np.asarray(sink, float).reshape(-1, 2)
+    wit["attempts_in_rerun"] = int(len(att))
+    if len(att) < 2:
+        return out, wit
+    ends = att[:, 0] + att[:, 1]
+    if clip:
+        shortest = 1.0
+        for i in range(1, len(att)):
+            at_ckpt = np.min(np.abs(ends[i] - np.asarray(save_at))) <= 1e-12 * max(1.0, abs(ends[i]))
+            if at_ckpt:
+                shortest = min(shortest, att[i, 1] / att[i - 1, 1])
+        wit["shortest_clipped_over_previous"] = float(shortest)
+        if shortest < 0.1:
+            r_ctrl = ratio_of(solve(save_at, False, cfg["solver"]), save_at)
+            wit["ratio_without_clipping"] = r_ctrl
+            out["clip_forced_short_step"] = bool(r_ctrl <= k_allowed)
+    elif strategy == "fixedpoint":
+        # accepted attempts: the next attempt starts where this one ended
+        acc = [i for i in range(len(att)) if i == len(att) - 1 or att[i + 1, 0] > att[i, 0]]
+        starts, stops = att[acc, 0], ends[acc]
+        offenders, worst = [], 1.0
+        for j, c in enumerate(save_at[1:-1], start=1):
+            k = int(np.searchsorted(stops, c - 1e-8))  # step whose end is the first one >= c (within eps)
+            if k >= len(stops) or abs(stops[k] - c) <= 1e-8:
+                continue  # at a step end: no interpolation
+            a, b = starts[k], stops[k]
+            node = max(a, save_at[j - 1])
+            rel = (c - node) / (b - a)
+            worst = min(worst, rel)
+            if rel < 2e-2:
+                offenders.append(j)
+        wit["min_relative_gap_after_node"] = float(worst)
+        if offenders:
+            kept = [t for j, t in enumerate(save_at) if j not in offenders]
+            r_ctrl = ratio_of(solve(kept, False, cfg["solver"]), kept)
+            wit["ratio_without_those_checkpoints"] = r_ctrl
+            out["small_gap_after_node"] = bool(r_ctrl <= k_allowed)
+    return out, wit
+
+
 def _judge(times, means, truth, atol, rtol):
     """max over requested times/components of |mean-u| / (atol + rtol|u|)."""
     ratio = np.abs(means - truth) / (atol + rtol * np.abs(truth))
@@ -191,11 +265,16 @@ def _run_adaptive(case):
                 n_before = len(viols)
                 check(save_at, np.asarray(sol.u.mean[0], float).reshape(len(save_at), -1)[:, :d], tol, rtol, f"save_at[{kind}] clip={clip}",
                       {"layout": kind, "clip": clip, "forced_small_step": small, "dt0": dt0})
-                if clip and not small and len(viols) > n_before:
-                    # an exceedance under clipping: find out whether clipping forced a tiny step in this very run
-                    tiny, n_att = _tiny_step_occurred(cfg, clip, save_at, tol, rtol, dt0)
-                    viols[-1]["tags"]["forced_small_step"] = bool(tiny)
-                    viols[-1]["witness"]["attempts_in_rerun"] = n_att
+                if len(viols) > n_before:
+                    if clip and not small:
+                        # an exceedance under clipping: find out whether clipping forced a tiny step in this very run
+                        tiny, n_att = _tiny_step_occurred(cfg, clip, save_at, tol, rtol, dt0)
+                        viols[-1]["tags"]["forced_small_step"] = bool(tiny)
+                    if not viols[-1]["tags"]["forced_small_step"]:
+                        dtags, dwit = _diagnose(cfg, prob, clip, [float(x) for x in save_at], tol, rtol, dt0, K if nu + 1 >= 3 else K_LOWEST, case["strategy"])
+                        viols[-1]["tags"].update(dtags)
+                        viols[-1]["witness"].update(dwit)
+                        obs["exceedances_diagnosed_by_intervention"] = obs.get("exceedances_diagnosed_by_intervention", 0) + 1
                 obs["adaptive_solves"] = obs.get("adaptive_solves", 0) + 1
                 obs["max_steps"] = max(obs.get("max_steps", 0), int(np.asarray(sol.num_steps)[-1]))
                 if int(np.asarray(sol.num_steps)[-1]) >= 3 and len(save_at) > 2:
